@@ -32,5 +32,5 @@ func MarshalTimestamp(ts *timestamppb.Timestamp) string {
 	if ts == nil {
 		return ""
 	}
-	return ts.AsTime().Format(time.RFC3339)
+	return ts.AsTime().Format(time.RFC3339Nano)
 }
